@@ -13,6 +13,10 @@ interleaving model `Fine.step`).  The statement has four parts:
    `c19_interleaving_witness` for the pinned code, which violates it);
 4. a VAA whose hand-off to the queue failed is not marked as seen, so a later copy can still be ingested
    (`c19_failed_not_marked`, `c19_marked_iff_queued`, `c19_retry_ingested`).
+
+Right after a guardian-set change the named set is fetched on demand; when that lookup fails nothing stands in for it
+(`c19_lookup_failed_no_effect`), a fetched set is the chain's answer for the very index asked for
+(`c19_fetched_set_is_chain_answer`), and a later copy is judged against that answer (`c19_failed_lookup_then_recovered`).
 -/
 namespace Whv.C19
 open Whv Whv.Explorer
@@ -324,6 +328,93 @@ theorem c19_retry_ingested (g : GS) (v : Vaa) (recover : Bytes → Option Addr) 
       unfold push
       simp [h2, hv, apply]
 
+/-! ### The on-demand lookup fails at the chain (right after a guardian-set change) -/
+
+/-- **A lookup that cannot be served has no effect.** A VAA naming a set the explorer does not hold yet, while the chain cannot
+be dialled or one request of the range `[current+1 .. named]` fails (whichever one: `fetchRange` is all-or-nothing): `Push`
+returns the lookup's error, nothing is queued, nothing is marked as seen, no set is stored or announced — in particular no other
+set stands in for the named one. -/
+theorem c19_lookup_failed_no_effect (g : GS) (v : Vaa) (recover : Bytes → Option Addr) (dial : Bool) (chain : Chain) (hit room : Bool)
+    (hgt : g.cur < (v.gsIndex : Int))
+    (hfail : dial = false ∨ fetchRange chain (u32 (g.cur + 1)) (u32 (v.gsIndex : Int)) = none) :
+    (push g v recover dial chain hit room).res = .getErr ∧ (push g v recover dial chain hit room).enq = false ∧
+    (push g v recover dial chain hit room).stored = false ∧ (push g v recover dial chain hit room).st = g ∧
+    (push g v recover dial chain hit room).sent = [] := by
+  have hle : ¬ ((v.gsIndex : Int) ≤ g.cur) := by omega
+  have hget : (getGuardianSet g (v.gsIndex : Int) dial chain).res = .err ∧ (getGuardianSet g (v.gsIndex : Int) dial chain).st = g ∧
+      (getGuardianSet g (v.gsIndex : Int) dial chain).sent = [] := by
+    unfold getGuardianSet
+    simp only [hle, if_false]
+    rcases hfail with h | h
+    · subst h; simp
+    · cases dial <;> simp [h]
+  unfold push
+  simp only [hget.1, hget.2.1, hget.2.2, and_self]
+
+/-- **A set fetched on demand is the chain's answer for the index asked for**: when `GetGuardianSet(i)` for an index beyond
+`current` succeeds, the set it returns carries index `i` and exactly the keys the chain answered for `getGuardianSet(i)` — not
+those of any set that was stored before, however many keys the two share. -/
+theorem c19_fetched_set_is_chain_answer (g : GS) (index : Int) (dial : Bool) (chain : Chain)
+    (hinv : Inv g.cur g.list) (hgt : g.cur < index) (hlt : index < (two32 : Int)) (s : GSet)
+    (hr : (getGuardianSet g index dial chain).res = .ok s) :
+    s.index = index.toNat ∧ chain index.toNat = some s.keys := by
+  have hlen := hinv.len
+  have hpos : 0 < g.list.length := List.length_pos_iff.mpr hinv.ne
+  have hle : ¬ (index ≤ g.cur) := by omega
+  have h1 : (u32 (g.cur + 1) : Int) = g.cur + 1 := u32_of_nonneg (by omega) (by omega)
+  have h2 : (u32 index : Int) = index := u32_of_nonneg (by omega) hlt
+  unfold getGuardianSet at hr
+  simp only [hle, if_false] at hr
+  cases dial with
+  | false => simp at hr
+  | true =>
+    simp only [Bool.not_true, Bool.false_eq_true, if_false] at hr
+    cases hf : fetchRange chain (u32 (g.cur + 1)) (u32 index) with
+    | none => simp [hf] at hr
+    | some sets =>
+      simp only [hf] at hr
+      unfold fetchRange at hf
+      obtain ⟨hc, hl⟩ := fetchLoop_contig chain _ _ sets hf
+      have hne : sets ≠ [] := fun e => by rw [e] at hl; simp at hl; omega
+      obtain ⟨nc, hp⟩ := plan_fresh hinv hc hne (by omega)
+      have hu : (update g sets).1 = ⟨nc, g.list ++ sets⟩ := by unfold update; simp only [hp]
+      rw [hu] at hr
+      simp only at hr
+      -- position `index` of the new list is position `index - (current+1)` of the batch
+      have hj : index.toNat - g.list.length < sets.length := by omega
+      have hat : listAt (g.list ++ sets) index = some sets[index.toNat - g.list.length] := by
+        unfold listAt
+        rw [if_neg (by omega), List.getElem?_append_right (by omega)]
+        exact List.getElem?_eq_getElem hj
+      obtain ⟨hi, hk⟩ := fetchLoop_getElem chain _ _ sets hf _ hj
+      have e : u32 (g.cur + 1) + (index.toNat - g.list.length) = index.toNat := by omega
+      rw [e] at hi hk
+      cases hcur : listAt (g.list ++ sets) nc with
+      | none => simp [hcur] at hr
+      | some c =>
+        simp only [hcur] at hr
+        by_cases hgt' : index > nc
+        · simp [hgt'] at hr
+        · simp only [hgt', if_false, hat] at hr
+          cases hr
+          exact ⟨hi, hk⟩
+
+/-- **After the lookup has recovered the VAA is judged against the named set as the chain defines it.** A `Push` whose on-demand
+lookup failed, followed by a `Push` of the same VAA (any cache answer, any queue state, any chain behaviour by then): if the second
+one queues the VAA, the chain has answered `getGuardianSet` for the index the VAA names, and the VAA is signed, carries a quorum
+for the *size of that answer* and its signatures are `Valid` for *those keys* — the failed attempt left nothing behind that could
+stand in for them. -/
+theorem c19_failed_lookup_then_recovered (g : GS) (v : Vaa) (recover : Bytes → Option Addr) (dial dial' : Bool) (chain chain' : Chain)
+    (hit room hit' room' : Bool) (hinv : Inv g.cur g.list) (hidx : v.gsIndex < two32) (hgt : g.cur < (v.gsIndex : Int))
+    (hfail : dial = false ∨ fetchRange chain (u32 (g.cur + 1)) (u32 (v.gsIndex : Int)) = none)
+    (hq : (push (push g v recover dial chain hit room).st v recover dial' chain' hit' room').enq = true) :
+    ∃ keys, chain' v.gsIndex = some (some keys) ∧ v.sigs ≠ [] ∧ quorum keys.length ≤ v.sigs.length ∧ C06.Valid recover v.sigs keys := by
+  rw [(c19_lookup_failed_no_effect g v recover dial chain hit room hgt hfail).2.2.2.1] at hq
+  obtain ⟨s, keys, hr, _, hk, h1, h2, h3⟩ := c19_queued_verified g v recover dial' chain' hit' room' hinv hidx hq
+  have := (c19_fetched_set_is_chain_answer g (v.gsIndex : Int) dial' chain' hinv hgt (by omega) s hr).2
+  rw [hk] at this
+  exact ⟨keys, by simpa using this, h1, h2, h3⟩
+
 /-! ### Every history of arrivals; the gate and `VerifySignatures` -/
 
 /-- **What the gate lets through, `VerifySignatures` accepts** (the call-site form of C06 for the explorer, clause
@@ -464,6 +555,28 @@ example : demoFar.cur = 12 ∧ demoFar.list.map (·.index) = [0, 1, 2, 3, 4, 5, 
 example : ((List.range 13).all fun i => match (getGuardianSet demoFar i false demoChain2).res with | .ok s => s.index == i | _ => false) = true := by decide
 -- start-up
 example : (fetchRange demoChain2 0 3).map (·.map (·.index)) = some [0, 1, 2, 3] := by decide
+
+-- the on-demand lookup fails right after a set change: set 0 = {A} is stored, set 1 = {A, B, C} keeps A at position 0
+/-- the endpoint answers nothing -/
+def demoDown : Chain := fun _ => none
+/-- the first request of a two-set range is served, the second fails -/
+def demoHalfDown : Chain := fun i => if i = 1 then some (some [kA, kB, kC]) else none
+/-- a VAA naming set 1 with ONE signature, by the guardian both sets have at position 0 -/
+def demoWeak : Vaa := { demoV with sigs := [⟨0, [1]⟩] }
+example : fetchRange demoDown (u32 (demoG.cur + 1)) (u32 (demoWeak.gsIndex : Int)) = none := by decide
+example : fetchRange demoHalfDown (u32 (demoG.cur + 1)) (u32 (2 : Int)) = none := by decide
+-- it WOULD pass the gate of the stored set (threshold 1) …
+example : verifyVAA demoRec demoWeak (some [kA]) = none := by decide
+-- … but is not judged at all while the named set cannot be fetched, and nothing is left behind
+example : push demoG demoWeak demoRec true demoDown false true = ⟨demoG, .getErr, [], some (1, 1), false, false⟩ := by decide
+example : (push demoG { demoWeak with gsIndex := 2 } demoRec true demoHalfDown false true).st = demoG := by decide
+example : (push demoG demoWeak demoRec false demoChain false true).res = .getErr := by decide
+-- once the node answers again it is judged against set 1 as the chain defines it: one signature of three required
+example : (push (push demoG demoWeak demoRec true demoDown false true).st demoWeak demoRec true demoChain false true).res = .invalid .noQuorum := by decide
+-- and the complete VAA, dropped while the lookup failed, is ingested when it arrives again
+example : (push demoG demoV demoRec true demoDown false true).enq = false := by decide
+example : (push (push demoG demoV demoRec true demoDown false true).st demoV demoRec true demoChain false true).enq = true := by decide
+example : (getGuardianSet demoG 1 true demoChain).res = .ok ⟨1, some [kA, kB, kC]⟩ ∧ demoChain 1 = some (some [kA, kB, kC]) := by decide
 
 /-! ## Concurrent lookups while sets are appended (fine-grained model `Whv.Explorer.Fine`) -/
 section Interleaving
